@@ -68,26 +68,41 @@ pub fn run_shards(args: &[String], n: usize, wall_cap: Duration) -> ShardOutcome
                 }
             }
         };
+        let journal = journal_path(&out);
+        let mut died_on_item = false;
         match std::fs::read(&out) {
             Ok(bytes) => match serde_json::from_slice::<ShardResult>(&bytes) {
                 Ok(r) => merged.merge(r),
                 Err(e) => errs.push(format!("shard {i}: unreadable result: {e}")),
             },
-            Err(_) => match status {
-                None => errs.push(format!("shard {i}: killed at the wall cap without a result")),
-                Some(s) => errs.push(format!("shard {i}: exited with {s} without a result")),
-            },
+            Err(_) => {
+                // The worker died (abort, allocation failure, kill) while working on a journalled item:
+                // for checks that declare it, that is a verdict about the item, not about the machinery.
+                match std::fs::read(&journal).ok().and_then(|b| serde_json::from_slice::<crate::evidence::Violation>(&b).ok()) {
+                    Some(v) => {
+                        died_on_item = true;
+                        merged.violations.push(v);
+                        merged.capped = true;
+                        merged.notes.insert(format!("shard {i} died while evaluating a journalled item; the rest of its share is unexplored"));
+                    }
+                    None => match status {
+                        None => errs.push(format!("shard {i}: killed at the wall cap without a result")),
+                        Some(s) => errs.push(format!("shard {i}: exited with {s} without a result")),
+                    },
+                }
+            }
         }
         if let Some(s) = status {
             // 0 = fine, 3 = worker stopped early on a violation it had to abandon the process for.
             let code = s.code().unwrap_or(-1);
-            if code != 0 && code != 3 {
+            if code != 0 && code != 3 && !died_on_item {
                 errs.push(format!("shard {i}: exit status {s}"));
             }
         } else {
             merged.capped = true;
         }
         let _ = std::fs::remove_file(&out);
+        let _ = std::fs::remove_file(&journal);
     }
     let _ = std::fs::remove_dir_all(&dir);
     ShardOutcome {
@@ -100,4 +115,28 @@ pub fn write_shard_result(path: &std::path::Path, r: &ShardResult) {
     let tmp = path.with_extension("tmp");
     std::fs::write(&tmp, serde_json::to_vec(r).unwrap()).expect("write shard result");
     std::fs::rename(tmp, path).expect("rename shard result");
+}
+
+pub fn journal_path(shard_out: &std::path::Path) -> PathBuf {
+    shard_out.with_extension("journal")
+}
+
+static JOURNAL: std::sync::Mutex<Option<PathBuf>> = std::sync::Mutex::new(None);
+
+/// Worker side: where to journal the item being evaluated (set once from `--shard-out`).
+pub fn set_journal_for(shard_out: &std::path::Path) {
+    *JOURNAL.lock().unwrap() = Some(journal_path(shard_out));
+}
+
+/// Record the verdict to report if the process dies while evaluating the current item.
+pub fn journal(v: &crate::evidence::Violation) {
+    if let Some(p) = JOURNAL.lock().unwrap().as_ref() {
+        let _ = std::fs::write(p, serde_json::to_vec(v).unwrap());
+    }
+}
+
+pub fn journal_clear() {
+    if let Some(p) = JOURNAL.lock().unwrap().as_ref() {
+        let _ = std::fs::remove_file(p);
+    }
 }
